@@ -300,6 +300,7 @@ package jsonrpc2
 //@   ensures @looks-up-exactly-this-id req == s.incomingByID[id]
 // Cancel then calls the cancel function of that one request, or nothing.
 //@ func (*Connection).Cancel [C04]
+//@   nopanic
 //@   track req.cancel as cancelOne
 //@   callee req.cancel: modifies *
 //@   requires c != nil
